@@ -23,6 +23,7 @@ import (
 	"google.golang.org/grpc/metadata"
 	"google.golang.org/grpc/peer"
 
+	"github.com/fullstorydev/grpchan"
 	"github.com/fullstorydev/grpchan/httpgrpc"
 	"github.com/fullstorydev/grpchan/inprocgrpc"
 	"verifharness/hx"
@@ -400,6 +401,80 @@ func runC13(o *hx.Out, r *hx.Rand, thorough bool) {
 			}
 		}
 	}
+	// credentials added by a client interceptor (an auth layer that appends grpc.PerRPCCredentials to the call's
+	// options) on a channel intercepted twice: they are the call's credentials like any the caller passed
+	for _, tn := range []string{"httpgrpc", "inprocgrpc"} {
+		var sawTok string
+		var reqs int32
+		svc := &hx.Svc{Unary: func(ctx context.Context, req *hx.Msg) (*hx.Msg, error) {
+			in, _ := metadata.FromIncomingContext(ctx)
+			sawTok = strings.Join(in.Get("token"), ",")
+			return &hx.Msg{}, nil
+		}, Stream: func(kind string, ss grpc.ServerStream) error {
+			in, _ := metadata.FromIncomingContext(ss.Context())
+			sawTok = strings.Join(in.Get("token"), ",")
+			return nil
+		}}
+		var base grpc.ClientConnInterface
+		stop := func() {}
+		if tn == "httpgrpc" {
+			hs := httpgrpc.NewServer()
+			hs.RegisterService(hx.Desc(hx.SvcName), svc)
+			ts := httptest.NewServer(http.HandlerFunc(func(w http.ResponseWriter, r *http.Request) { atomic.AddInt32(&reqs, 1); hs.ServeHTTP(w, r) }))
+			u, _ := url.Parse(ts.URL)
+			base, stop = &httpgrpc.Channel{Transport: &http.Transport{}, BaseURL: u}, ts.Close
+		} else {
+			ic := &inprocgrpc.Channel{}
+			ic.RegisterService(hx.Desc(hx.SvcName), svc)
+			base = ic
+		}
+		for _, secure := range []bool{false, true} {
+			var asked int32
+			cr := authCreds{tokenCreds{token: "from-the-auth-layer", asked: &asked}, secure}
+			inner := grpchan.InterceptClientConn(base,
+				func(ctx context.Context, m string, rq, rp interface{}, cc *grpc.ClientConn, inv grpc.UnaryInvoker, opts ...grpc.CallOption) error {
+					return inv(ctx, m, rq, rp, cc, opts...)
+				},
+				func(ctx context.Context, d *grpc.StreamDesc, cc *grpc.ClientConn, m string, st grpc.Streamer, opts ...grpc.CallOption) (grpc.ClientStream, error) {
+					return st(ctx, d, cc, m, opts...)
+				})
+			outer := grpchan.InterceptClientConn(inner,
+				func(ctx context.Context, m string, rq, rp interface{}, cc *grpc.ClientConn, inv grpc.UnaryInvoker, opts ...grpc.CallOption) error {
+					return inv(ctx, m, rq, rp, cc, append(opts, grpc.PerRPCCredentials(cr))...)
+				},
+				func(ctx context.Context, d *grpc.StreamDesc, cc *grpc.ClientConn, m string, st grpc.Streamer, opts ...grpc.CallOption) (grpc.ClientStream, error) {
+					return st(ctx, d, cc, m, append(opts, grpc.PerRPCCredentials(cr))...)
+				})
+			for _, stream := range []bool{false, true} {
+				sawTok = "(handler did not run)"
+				atomic.StoreInt32(&reqs, 0)
+				var err error
+				if stream {
+					var cs grpc.ClientStream
+					if cs, err = outer.NewStream(context.Background(), hx.StreamDescOf("BD"), "/verif.Svc/BD"); err == nil {
+						cs.CloseSend()
+						if e := cs.RecvMsg(&hx.Msg{}); e != io.EOF {
+							err = e
+						}
+						runtime.KeepAlive(cs)
+					}
+				} else {
+					err = outer.Invoke(context.Background(), "/verif.Svc/U", &hx.Msg{}, &hx.Msg{})
+				}
+				// credentials that require transport security are refused on the plain HTTP connection (no request at
+				// all); in process there is no connection to be insecure
+				refuse := secure && tn == "httpgrpc"
+				ok := (refuse && err != nil && atomic.LoadInt32(&reqs) == 0 && sawTok == "(handler did not run)") ||
+					(!refuse && err == nil && sawTok == "from-the-auth-layer")
+				if !ok {
+					o.Violate("credentials that a client interceptor added to the call's options on a twice-intercepted channel were not treated as the call's credentials",
+						map[string]interface{}{"transport": tn, "stream": stream, "credentials_require_transport_security": secure, "handler_saw_token": sawTok, "http_requests": atomic.LoadInt32(&reqs), "error": fmt.Sprint(err)},
+						sawTok, map[bool]string{true: "refused before any request", false: "from-the-auth-layer"}[refuse])
+				}
+			}
+		}
+		stop()
+	}
 	o.Stats["exhaustive_configurations"] = "{http,https,inproc} x {unary,stream} x {no creds, 5 credential maps x {secure,not}, failing x {secure,not}} x {peer option or not}"
 	o.Shard = 120
 }
@@ -417,3 +492,11 @@ func (c tokenCreds) GetRequestMetadata(context.Context, ...string) (map[string]s
 	return map[string]string{"token": c.token}, nil
 }
 func (tokenCreds) RequireTransportSecurity() bool { return false }
+
+// authCreds are tokenCreds that may require transport security
+type authCreds struct {
+	tokenCreds
+	secure bool
+}
+
+func (a authCreds) RequireTransportSecurity() bool { return a.secure }
